@@ -128,15 +128,15 @@ theorem fromBytes_image (t : List UInt8) (v : Val) (h : fromBytes t = .ok v) : d
     all_goals simp at h
   all_goals simp at h
 
-/-- a decoded value that is not on the exclusion list, has no two columns of one name and is nested less than 64
-deep satisfies the hypotheses of the round trip of C01, provided its lexical leaves do -/
-theorem fromBytes_wf (t : List UInt8) (v : Val) (h : fromBytes t = .ok v) (hl : lexLeavesOk v = true)
-    (hx : excluded v = false) (hu : dupCols v = false) (hn : depthOk v = true) :
-    wfV (asRead v) = true ∧ depthOk (asRead v) = true ∧ lexImg (asRead v) = v := by
+/-- **re-encode stability from the image invariant**: a decoded value that is not on the exclusion list and is
+nested less than 64 deep is the value the reader returns for its own re-encoding, provided its lexical leaves are
+lexemes C01's round trip covers -/
+theorem fromBytes_stable (t : List UInt8) (v : Val) (h : fromBytes t = .ok v) (hl : lexLeavesOk v = true)
+    (hx : excluded v = false) (hn : depthOk v = true) : fromBytes (encode (asRead v)) = .ok v := by
   obtain ⟨hd, _⟩ := fromBytes_image t v h
-  obtain ⟨a, b⟩ := image_wf v hd hl (badNode_false v hx hu)
-  refine ⟨a, ?_, b⟩
-  unfold depthOk at hn ⊢
-  rw [nest_asRead]; exact hn
+  obtain ⟨a, b⟩ := image_good v hd hl (badNode_false v hx)
+  have hn' : nestV (asRead v) < 64 := by
+    rw [nest_asRead]; simpa [depthOk] using hn
+  rw [fromBytes_of_GoodVG (asRead v) a hn', b]
 
 end Hs.Zinc
